@@ -3,7 +3,7 @@ import z3
 from z3 import BitVec, BitVecVal, SignExt, And, Or, Not, Implies, If, RealVal, BoolVal, Real, Bool
 from vlib import bcheck
 from vlib.headers import macros
-from vlib.irsym import Eval, Prim, dbl, P, key_of, conc
+from vlib.irsym import Eval, Prim, dbl, P, key_of, conc, resolve
 
 S32 = z3.BitVecSort(32); S64 = z3.BitVecSort(64); R = z3.RealSort()
 
@@ -13,10 +13,16 @@ def b_splint(cl, mod, H):
     ev = Eval(mod)
     f = mod.funcs['splint']
     info = ev.loops(f)
+    if len(info['loops']) != 1:
+        cl.note_unsupported('C02/splint/shape', 'expected exactly one loop in splint, found %d' % len(info['loops']), ['splint']); return
     (header, body), = info['loops'].items()
-    phis = [i for i in f.blocks[header] if i.op == 'phi']
-    klo_n = [i.res for i in phis if any(v.kind == 'int' for v, _ in i.inc)][0]
-    khi_n = [i.res for i in phis if i.res != klo_n][0]
+    phis = [i for i in f.blocks[header] if i.op == 'phi' and resolve(i.ty, mod).kind == 'int']
+    npar = f.params[3][0]
+    # khi starts at the table length n (4th parameter); klo is the other integer loop variable
+    khi_c = [i.res for i in phis if any(v.kind == 'local' and v.name == npar and l not in body for v, l in i.inc)]
+    if len(phis) != 2 or len(khi_c) != 1:
+        cl.note_unsupported('C02/splint/shape', 'bisection loop not recognised (%d integer loop variables)' % len(phis), ['splint']); return
+    khi_n = khi_c[0]; klo_n = [i.res for i in phis if i.res != khi_n][0]
     n = BitVec('n', 32); x = Real('x')
     XA = ev.uf('xa|1', [S64], R); YA = ev.uf('ya|1', [S64], R); Y2 = ev.uf('y2a|1', [S64], R)
     xa = lambda k: XA(SignExt(32, k) if k.size() == 32 else k)
@@ -51,8 +57,10 @@ def b_splint(cl, mod, H):
     cl.add('C02/splint/cubic', ev, And(pre, ok, h != 0), yout == cubic,
            '*y = A y_lo + B y_hi + ((A^3-A) y2_lo + (B^3-B) y2_hi) h^2/6 with A = (x_hi-x)/h, B = (x-x_lo)/h (as real expressions)', functions=fns, bounds='every 1 <= n <= 1e9')
     cl.add('C02/splint/degenerate', ev, And(pre, ok, h == 0), yout == (ya(lo) + ya(hi)) / 2, 'coincident knots: mean of the two ordinates', functions=fns)
-    cl.add('C02/splint/knots', ev, And(pre, ok, h != 0), And(Implies(x == xa(lo), yout == ya(lo)), Implies(x == xa(hi), yout == ya(hi))),
-           'at a knot the interpolant equals the tabulated ordinate', functions=fns)
+    cl.add('C02/splint/knots_direct', ev, And(pre, ok, xa(hi) - xa(lo) > dbl(1E-12)), Implies(x == xa(lo), yout == ya(lo)),
+           'at the lower knot of a non-degenerate interval the returned value is the tabulated ordinate (direct form, on the evaluated function)', functions=fns, timeout=40)
+    cl.add('C02/splint/knots', ev, h != 0, And(Implies(x == xa(lo), cubic == ya(lo)), Implies(x == xa(hi), cubic == ya(hi))),
+           'at a knot the cubic proved above equals the tabulated ordinate (A=1,B=0 resp. A=0,B=1)', functions=fns)
     # memory safety: every element read lies in [1, n] of its array
     bad = []
     for pc, kind, obj, path in ev.accesses:
@@ -169,7 +177,7 @@ def check(run):
     groups.append(('C02/site/CSb_Photo_Partial', lambda cl: b_kissel_partial(cl, mk, H), ()))
     bcheck.run_groups(run, groups)
     from vlib import datalemma
-    datalemma.attach(run, 'C02', want=('spline',))
+    datalemma.attach(run, 'C02', want=('spline',), dl1_splines=True)
 
 
 # ----------------------------------------------------------------------------------------- 2b. two-index call sites
